@@ -577,6 +577,16 @@ M("c13-overlap-string-prefix", "C13", "json_patch.c",
 M("c13-benign-overlap-rewrite", "C13", "json_patch.c",
   "\tif (strncmp(from_s, path, from_s_len) == 0 &&\n\t    (path[from_s_len] == '\\0' || path[from_s_len] == '/')) {",
   "\tif (strlen(path) >= from_s_len && memcmp(from_s, path, from_s_len) == 0 &&\n\t    (path[from_s_len] == '/' || !path[from_s_len])) {", expect="silent")
+M("c20-close-result-overwrites", "C20", "json_util.c",
+  "\tsaved_errno = errno;\n\tclose(fd);\n\terrno = saved_errno;\n\treturn ret;",
+  "\tsaved_errno = errno;\n\tret = close(fd);\n\terrno = saved_errno;\n\treturn ret;", needle="C20.R5")
+M("c20-benign-explicit-failure-return", "C20", "json_util.c",
+  "\tsaved_errno = errno;\n\tclose(fd);\n\terrno = saved_errno;\n\treturn ret;",
+  "\tsaved_errno = errno;\n\tclose(fd);\n\terrno = saved_errno;\n\tif (ret < 0)\n\t\treturn -1;\n\treturn 0;", expect="silent")
+M("c15-fromfd-zero-becomes-default", "C15", "json_util.c",
+  "\tif (in_depth != -1)\n\t\tdepth = in_depth;", "\tif (in_depth > 0)\n\t\tdepth = in_depth;", needle="C15.R4")
+M("c15-benign-fromfd-early-refusal", "C15", "json_util.c",
+  "\tif (in_depth != -1)\n\t\tdepth = in_depth;", "\tif (in_depth != -1)\n\t\tdepth = in_depth;\n\tif (depth < 1)\n\t{\n\t\tprintbuf_free(pb);\n\t\treturn NULL;\n\t}", expect="silent")
 M("c02-benign-escape-reorder", "C02", "json_object.c",
   "\t\t\tif (c == '\\b')\n\t\t\t\tprintbuf_memappend(pb, \"\\\\b\", 2);\n\t\t\telse if (c == '\\n')\n\t\t\t\tprintbuf_memappend(pb, \"\\\\n\", 2);",
   "\t\t\tif (c == '\\n')\n\t\t\t\tprintbuf_memappend(pb, \"\\\\n\", 2);\n\t\t\telse if (c == '\\b')\n\t\t\t\tprintbuf_memappend(pb, \"\\\\b\", 2);", expect="silent")
